@@ -23,9 +23,48 @@ MAX_STMTS = 150          # results larger than this (pool explosions) are skippe
 MAX_TEXT = 60000
 
 
-def programs(inputs):
-    """(text, parsed program) of every input, without duplicates"""
+class _Mutator:
+    """builds ASTs the parser cannot produce (the Python functions are total on the AST type, not on
+    the grammar): comparisons without guards, aggregates as literals inside old-style aggregates"""
+
+    def __init__(self, rng):
+        from clingo.ast import Transformer
+        self.rng = rng
+        self.hit = False
+        outer = self
+
+        class T(Transformer):
+            def visit_Comparison(self, node):  # pylint: disable=invalid-name
+                if outer.rng.random() < 0.5:
+                    outer.hit = True
+                    return node.update(guards=[])
+                return node
+
+            def visit_Aggregate(self, node):  # pylint: disable=invalid-name
+                from clingo.ast import AggregateFunction, BodyAggregate
+                if node.elements and outer.rng.random() < 0.7:
+                    outer.hit = True
+                    elems = list(node.elements)
+                    i = outer.rng.randrange(len(elems))
+                    inner = outer.rng.choice([BodyAggregate(node.location, None, AggregateFunction.Sum, [], None),
+                                              node.update(elements=[])])
+                    elems[i] = elems[i].update(literal=elems[i].literal.update(atom=inner))
+                    return node.update(elements=elems)
+                return node
+
+        self.t = T()
+
+    def __call__(self, prg):
+        self.hit = False
+        out = [self.t.visit(s) for s in prg]
+        return out if self.hit else None
+
+
+def programs(inputs, rng=None, max_mutants=80):
+    """(text, parsed program) of every input, without duplicates; with rng also some mutants"""
     seen = set()
+    mut = _Mutator(rng) if rng is not None else None
+    nmut = 0
     for inp in inputs:
         if inp["text"] in seen:
             continue
@@ -34,11 +73,20 @@ def programs(inputs):
         if prg is None:
             continue
         yield inp["text"], prg
+        if mut is not None and nmut < max_mutants and ("{" in inp["text"] or "=" in inp["text"] or "<" in inp["text"]) \
+                and rng.random() < 0.3:
+            try:
+                m = mut(prg)
+            except Exception:  # pylint: disable=broad-except
+                m = None
+            if m is not None:
+                nmut += 1
+                yield inp["text"] + "   %% MUTANT: " + " ".join(map(str, m)), m
 
 
-def statements(inputs):
+def statements(inputs, rng=None):
     seen = set()
-    for _, prg in programs(inputs):
+    for _, prg in programs(inputs, rng):
         for s in prg:
             k = str(s)
             if k in seen:
@@ -111,7 +159,7 @@ class ReplaceOldAggregates:
     def cases(self, inputs, rng):
         from ngo.normalize import replace_old_aggregates
         quiet()
-        for text, prg in programs(inputs):
+        for text, prg in programs(inputs, rng):
             c = prog_case("replace_old_aggregates", "replace_old_aggregates", replace_old_aggregates, prg, text)
             if c is not None:
                 yield c
@@ -125,7 +173,7 @@ class RemoveBounds:
     def cases(self, inputs, rng):
         from ngo.normalize import remove_unecessary_bounds, replace_old_aggregates
         quiet()
-        for text, prg in programs(inputs):
+        for text, prg in programs(inputs, rng):
             c = prog_case("remove_unecessary_bounds", "remove_unecessary_bounds", remove_unecessary_bounds, prg, text, "raw")
             if c is not None:
                 yield c
@@ -145,7 +193,7 @@ class ExpandComparisons:
     def cases(self, inputs, rng):
         from ngo.normalize import expand_comparisons
         quiet()
-        for text, prg in programs(inputs):
+        for text, prg in programs(inputs, rng):
             c = prog_case("expand_comparisons", "(fun p => Ok (map expand_comparisons p))",
                           lambda p: [expand_comparisons(s) for s in p], prg, text)
             if c is not None:
@@ -159,7 +207,7 @@ class Unpool:
 
     def cases(self, inputs, rng):
         quiet()
-        for s in statements(inputs):
+        for s in statements(inputs, rng):
             try:
                 t = ser.stmt(s)
             except ser.Unsupported:
@@ -180,7 +228,7 @@ class Preprocess:
     def cases(self, inputs, rng):
         from ngo.normalize import preprocess
         quiet()
-        for text, prg in programs(inputs):
+        for text, prg in programs(inputs, rng):
             c = prog_case("preprocess", "preprocess", preprocess, prg, text)
             if c is not None:
                 yield c
@@ -194,7 +242,7 @@ class Exline:
     def cases(self, inputs, rng):
         from ngo.normalize import exline_arithmetic, preprocess
         quiet()
-        for text, prg in programs(inputs):
+        for text, prg in programs(inputs, rng):
             c = prog_case("exline_arithmetic", "exline_arithmetic", exline_arithmetic, prg, text, "raw")
             if c is not None:
                 yield c
@@ -221,7 +269,7 @@ class Inline:
         from ngo.normalize import (exline_arithmetic, inline_aggregates, inline_arithmetic, inline_conditionals,
                                    inline_rule, postprocess, preprocess)
         quiet()
-        for text, prg in programs(inputs):
+        for text, prg in programs(inputs, rng):
             c = prog_case("inline_arithmetic", "inline_arithmetic", inline_arithmetic, prg, text, "raw")
             if c is not None:
                 yield c
@@ -263,7 +311,7 @@ class OptimizeNone:
             return optimize(p, [], [], cleanup=False, unused=False, duplication=False, symmetry=False,
                             minmax_chains=False, sum_chains=False, math=False, inline=False, projection=False)
 
-        for text, prg in programs(inputs):
+        for text, prg in programs(inputs, rng):
             c = prog_case("optimize(none)", "optimize_none", run, prg, text)
             if c is not None:
                 yield c
